@@ -139,6 +139,55 @@ fn main() {
             out.push(serde_json::json!({"scenario": format!("print_{}", name), "check": "emit_escapes", "ok": ok, "detail": detail}));
         }
     }
+    // ---- captures under HTML auto-escaping: what was captured has been escaped once and is not escaped again;
+    //      without auto-escaping the captured text is an ordinary string
+    {
+        let env = Environment::new();
+        let lt = "<i>'\"&";
+        let direct = env.render_named_str("page.html", "<b>{{ v }}</b>", context! { v => lt }).unwrap_or_default();
+        let cases: Vec<(&str, &str, String)> = vec![
+            ("set_block", "{% set x %}<b>{{ v }}</b>{% endset %}{{ x }}", direct.clone()),
+            ("set_block_twice", "{% set x %}<b>{{ v }}</b>{% endset %}{% set y %}{{ x }}{% endset %}{{ y }}", direct.clone()),
+            ("macro_result", "{% macro m(a) %}<b>{{ a }}</b>{% endmacro %}{{ m(v) }}", direct.clone()),
+            ("call_block", "{% macro m() %}{{ caller() }}{% endmacro %}{% call m() %}<b>{{ v }}</b>{% endcall %}", direct.clone()),
+            ("recursive_loop", "{% for n in [[1]] recursive %}{% if n is sequence %}{{ loop(n) }}{% else %}<b>{{ v }}</b>{% endif %}{% endfor %}", direct.clone()),
+            ("recursive_loop_in_expression", "{% for n in [[1]] recursive %}{% if n is sequence %}{% set r = loop(n) %}{{ r }}{% else %}<b>{{ v }}</b>{% endif %}{% endfor %}", direct.clone()),
+            ("recursive_loop_filtered", "{% for n in [[1]] recursive %}{% if n is sequence %}{{ loop(n)|trim }}{% else %}<b>{{ v }}</b>{% endif %}{% endfor %}", direct.clone()),
+            ("filter_block", "{% filter upper %}<b>{{ v }}</b>{% endfilter %}", direct.to_uppercase()),
+            ("set_block_is_safe", "{% set x %}<b>{% endset %}{{ x is safe }}", "True".to_string()),
+        ];
+        for (name, src, want) in cases {
+            let r = env.render_named_str("page.html", src, context! { v => lt });
+            let (ok, detail) = match r {
+                Ok(s) => (s == want, format!("{} renders {:?}, the text printed directly is {:?}", src, s, want)),
+                Err(e) => (false, format!("render failed: {}", e)),
+            };
+            out.push(serde_json::json!({"scenario": format!("capture_{}", name), "check": "capture_mode", "ok": ok, "detail": detail}));
+        }
+        {
+            let mut env = Environment::new();
+            env.add_template("base.html", "{% block b %}<b>{{ v }}</b>{% endblock %}").unwrap();
+            env.add_template("child.html", "{% extends 'base.html' %}{% block b %}{% set s = super() %}{{ s }}{% endblock %}").unwrap();
+            let r = env.get_template("child.html").unwrap().render(context! { v => lt });
+            let (ok, detail) = match r {
+                Ok(s) => (s == direct, format!("super() held in a variable and printed renders {:?}, the parent block alone renders {:?}", s, direct)),
+                Err(e) => (false, format!("render failed: {}", e)),
+            };
+            out.push(serde_json::json!({"scenario": "capture_super_in_variable", "check": "capture_mode", "ok": ok, "detail": detail}));
+        }
+        let plain: Vec<(&str, &str, &str)> = vec![
+            ("text_set_block", "{% set x %}<b>{{ v }}</b>{% endset %}{{ x }}|{{ x is safe }}", "<b><i>'\"&</b>|False"),
+            ("text_macro_result", "{% macro m(a) %}<b>{{ a }}</b>{% endmacro %}{{ m(v) }}|{{ m(v) is safe }}", "<b><i>'\"&</b>|False"),
+        ];
+        for (name, src, want) in plain {
+            let r = env.render_named_str("page.txt", src, context! { v => lt });
+            let (ok, detail) = match r {
+                Ok(s) => (s == want, format!("without auto-escaping {} renders {:?}, expected {:?}", src, s, want)),
+                Err(e) => (false, format!("render failed: {}", e)),
+            };
+            out.push(serde_json::json!({"scenario": format!("capture_{}", name), "check": "capture_mode", "ok": ok, "detail": detail}));
+        }
+    }
     // ---- fuel: straight-line templates; the caller compares `consumed` with the number of charged instructions
     for (name, src) in [
         ("fuel_text_and_prints", "a{{ x }}b{{ y }}c"),
